@@ -73,6 +73,20 @@ def alt_table(atm, cells_dense, route, object_ids=False):
         t = b.Table(csr_with(), atm.obs_ids, atm.samp_ids, omd, smd, type=atm.type)
         t.filter(list(atm.samp_ids), axis='sample', inplace=True)
         t.filter(lambda v, i, m: True, axis='observation', inplace=True)
+    elif route == 'larger-then-filtered':
+        # an extra leading observation and sample, filtered away again: same content, different history
+        data, indices, indptr = [7.0], [0], [0, 1]
+        for i in range(nr):
+            cols = [j for j in range(nc) if is_sym(D[i][j]) or D[i][j] != 0]
+            data += [D[i][j] for j in cols]
+            indices += [j + 1 for j in cols]
+            indptr.append(len(data))
+        big = b.csr((_arr(data), indices, indptr), shape=(nr + 1, nc + 1))
+        omd2 = None if omd is None else [{'extra': 1}] + omd
+        smd2 = None if smd is None else [{'extra': 1}] + smd
+        t = b.Table(big, ['extra-o'] + list(atm.obs_ids), ['extra-s'] + list(atm.samp_ids), omd2, smd2, type=atm.type)
+        t.filter(['extra-o'], axis='observation', invert=True, inplace=True)
+        t = t.filter(lambda v, i, m: str(i) != 'extra-s', axis='sample', inplace=False)
     elif route == 'copy':
         t = b.Table(csr_with(), atm.obs_ids, atm.samp_ids, omd, smd, type=atm.type).copy()
     else:
@@ -81,7 +95,7 @@ def alt_table(atm, cells_dense, route, object_ids=False):
 
 
 ROUTES = ['csr-sorted', 'csr-reversed', 'explicit-zero', 'csc', 'coo', 'dense-array', 'triples', 'sort-then-inverse',
-          'filter-keeping-all', 'copy']
+          'filter-keeping-all', 'larger-then-filtered', 'copy']
 ACCESSORS = ['none', 'nnz', 'data-sample', 'data-observation', 'iter', 'eq-self', 'sum', 'density']
 
 
@@ -137,6 +151,14 @@ def h_equal(nr, nc, route, accs=ACCESSORS):
         for j, s_ in enumerate(a.samp_ids):
             claims.append(eq(A.get_value_by_ids(o, s_), Bt.get_value_by_ids(o, s_)))
     prove('eq:queries-agree', and_(*claims), **sig)
+    for ax, ids_ in (('observation', a.obs_ids), ('sample', a.samp_ids)):
+        for k_, i_ in enumerate(ids_):
+            if A.index(i_, ax) != Bt.index(i_, ax) or Bt.index(i_, ax) != k_ or not Bt.exists(i_, axis=ax):
+                fail('eq:index-agree', f"{ax} {i_}: {A.index(i_, ax)} vs {Bt.index(i_, ax)}", **sig)
+            if (A.metadata(i_, axis=ax) or None) != (Bt.metadata(i_, axis=ax) or None):
+                fail('eq:metadata-by-id-agree', f"{ax} {i_}", **sig)
+        if Bt.exists('extra-o', axis=ax) or Bt.exists('extra-s', axis=ax):
+            fail('eq:removed-id-still-known', ax, **sig)
     if A.nnz != Bt.nnz or abs(A.get_table_density() - Bt.get_table_density()) > 1e-12:
         fail('eq:nnz-density-agree', f"{A.nnz} vs {Bt.nnz}", **sig)
     # and still equal afterwards
